@@ -411,14 +411,6 @@ func (h *harness) batch(sessions []Session) {
 	}
 	h.run.Oblige(obCorr, "correspondence", nCorr, okC, dC)
 	h.run.Oblige(obOracle, "oracle", nOr, okO, dO)
-	// known finding F-08e (ticker.go): reported next to the session's ordinary verdict, which is
-	// formed with ticker frames tolerated
-	for _, o := range outs {
-		if what, hit := keepAliveBeforeAck(o.sess, o.obs); hit {
-			h.run.Count("keep-alive-before-ack")
-			h.run.Violate("property", o.sess.String()+": "+what, keyKeepAliveBeforeAck, false, replayDoc{Session: o.sess, Observed: o.obs, Oracle: what})
-		}
-	}
 	// goroutine accounting
 	n, dump := h.leakCheck(20 * time.Second)
 	if n > h.leakBase {
